@@ -386,6 +386,53 @@ func c08Child() {
 		}(g)
 	}
 	wg.Wait()
+	// phase 4: functions of the fast form that KEEP their argument slice (tuple / list constructors): what a run
+	// returned belongs to the caller - later fast calls of any goroutine must not change it
+	{
+		fenv := map[string]interface{}{
+			"Tuple": func(xs ...interface{}) interface{} { return xs },
+			"Wrap":  func(xs ...interface{}) interface{} { return map[string]interface{}{"v": xs} },
+		}
+		for g := 0; g < G; g++ {
+			wg.Add(1)
+			go func(g int) {
+				defer wg.Done()
+				var ms []c08Mismatch
+				n := 0
+				base := 1000 * (g + 1)
+				src := fmt.Sprintf("[Tuple(%d, %d), Tuple(%d), Wrap(%d, %d)]", base, base+1, base+2, base+3, base+4)
+				want := fmt.Sprintf("[]interface {}{[]interface {}{%d, %d}, []interface {}{%d}, map[string]interface {}{\"v\":[]interface {}{%d, %d}}}", base, base+1, base+2, base+3, base+4)
+				p, err := expr.Compile(src, expr.Env(fenv))
+				if err != nil {
+					ms = append(ms, c08Mismatch{"compile", src, "fast-retaining", -1, "a program", err.Error(), g})
+					report(ms, 0, 1)
+					return
+				}
+				var keep []interface{}
+				for it := 0; it < 300; it++ {
+					out, err := expr.Run(p, fenv)
+					n++
+					if got := fmt.Sprintf("%#v", out); err != nil || got != want {
+						ms = append(ms, c08Mismatch{"run", src, "fast-retaining", -1, want, fmt.Sprintf("%s / %v", got, err), g})
+						break
+					}
+					keep = append(keep, out)
+					if len(keep) > 8 {
+						keep = keep[1:]
+					}
+					for _, k := range keep {
+						if got := fmt.Sprintf("%#v", k); got != want {
+							ms = append(ms, c08Mismatch{"run", src, "fast-retaining (earlier result changed)", -1, want, got, g})
+							keep = nil
+							break
+						}
+					}
+				}
+				report(ms, n, 1)
+			}(g)
+		}
+		wg.Wait()
+	}
 	cr.Runs, cr.Compiles = runs, compiles
 
 	// nothing shared was modified
